@@ -3,6 +3,7 @@ mod cmd_backend;
 mod cmd_det;
 mod cmd_native;
 mod native;
+mod cmd_heapops;
 mod cmd_stages;
 mod cmd_fun2core;
 mod cmd_subst;
@@ -76,7 +77,7 @@ fn cmd_pm(seed: u64, n: usize, out: &mut dyn std::io::Write) {
 }
 
 fn main() {
-    std::panic::set_hook(Box::new(|_| {}));
+    if std::env::var("HARNESS_PANIC_TRACE").is_err() { std::panic::set_hook(Box::new(|_| {})); }
     let args: Vec<String> = std::env::args().collect();
     if args.len() < 2 { eprintln!("usage: harness <cmd> ..."); std::process::exit(2); }
     let arg = |i: usize| -> &str { args.get(i).map(|s| s.as_str()).unwrap_or("") };
@@ -106,6 +107,7 @@ fn main() {
         "determinism" => cmd_det::cmd_determinism(num(2, 1), num(3, 0) as usize, &mut *out, &args[5.min(args.len())..]),
         "codegen-all" => cmd_rvall::cmd_codegen_all(num(2, 1), num(3, 0) as usize, &mut *out, &args[5.min(args.len())..]),
         "show-rvmini" => { use printer::Print; let mut r = Rng::new(num(2, 1)); for _ in 0..num(3, 1) { let p = gen_rvmini::program(&mut r.fork(), 14); println!("{}\n-- check: {:?}\n", p.print_to_string(None), gen_rvmini::check(&p)); } }
+        "heapops-x86" => cmd_heapops::cmd_heapops(num(2, 1), num(3, 50) as usize, &mut *out),
         "pm" => cmd_pm(num(2, 1), num(3, 100) as usize, &mut *out),
         "lin-show" => { cmd_lin::cmd_lin_show(num(2, 1)); return; }
         "lin" => cmd_lin::cmd_lin(num(2, 1), num(3, 100) as usize, &mut *out, args.get(5..).unwrap_or(&[])),
